@@ -5,6 +5,18 @@ Record format (tnetstring): DIGITS ":" PAYLOAD TAG with len(PAYLOAD) = int(DIGIT
 from pyvc.api import *
 
 CLAIM = "proof"
+ASSUMPTIONS = [
+    "binary file objects behave like pyvc.libx_io.FileModel: read(n) = content[pos:pos+n] (short only at EOF) and advances pos; write appends; "
+    "flush/close make everything written durable in order (byte-prefix crash model, not an fsync claim)",
+    "tnetstring.parse / tnetstring.dumps / Flow.get_state / Flow.from_state / compat.migrate_flow / flowfilter.match are abstracted in C37 "
+    "(opaque results; their own contracts are C36/C38/C42): C37 is about record framing, error mapping and the write/flush trace",
+    "composition over a whole file (induction over records: load's framing contract at each record boundary + one loop iteration of "
+    "FlowReader.stream + one [write(enc), flush] per saved flow + well-formedness of every written record, C36 scenario rdumpq.*) is a "
+    "meta-argument; it is cross-checked by T2 at every truncation offset",
+    "valid string lemma 'if s[:b] is all digits and 0<=a<b<=len(s) then s[a] is a digit' is supplied to the solver as instances",
+    "HAR/JSON input (first byte '{' or BOM + '{') is outside T1 (json.loads); covered by T2 of C36",
+    "records are shorter than 10^12 bytes (the reader rejects length prefixes of more than 12 digits)",
+]
 FM = "pyvc.libx_io:FileModel"
 TN = "mitmproxy.io.tnetstring"
 EMPTY_MSG = "not a tnetstring: empty file"
@@ -260,7 +272,8 @@ def s_stream(vc):
         # (native replay only: second load reports EOF)
         vc.ensure("record.then_eof_clean", out.ok and len(yielded) == 1)
     else:
-        vc.ensure("error.is_flow_read_exception", (not out.ok) and issubclass(out.raised_type(), _cls(FRE)))
+        # statement: "either ends cleanly or reports a flow-read error" - never any other exception
+        vc.ensure("error.clean_end_or_flow_read_exception", out.ok or issubclass(out.raised_type(), _cls(FRE)))
         vc.ensure("error.nothing_yielded", len(yielded) == 0)
     vc.ensure("frame.file_not_written", And(len_(fo.ops) == 0, fo.content == content))
 
@@ -352,3 +365,196 @@ def s_plain_add(vc):
 def op_kind(op):
     k = op[0]
     return k.concrete() if isinstance(k, SStr) else k
+
+
+# =============================================================================================
+# T2 (bounded): real writer + real reader at every truncation offset; real Save addon with a recording file object
+
+
+def _states(flows):
+    return [f.get_state() for f in flows]
+
+
+def _check_truncations(b, label, data, bounds, states, offsets, via="bytesio"):
+    import os
+    import tempfile
+    from props import ioflows
+    for cut in offsets:
+        k = sum(1 for e in bounds[1:] if e <= cut)
+        b.case((label, cut, via), nontrivial=cut not in bounds)
+        if via == "bytesio":
+            got, end = ioflows.read_all(data[:cut])
+        else:
+            fd, path = tempfile.mkstemp()
+            try:
+                with os.fdopen(fd, "wb") as fh:
+                    fh.write(data[:cut])
+                with open(path, "rb") as fh:          # BufferedReader: the peek() path of FlowReader
+                    got, end = ioflows.read_all(fh)
+            finally:
+                os.unlink(path)
+        inp = {"file": label, "cut": cut, "len": len(data), "via": via}
+        if isinstance(end, tuple):
+            b.fail("truncation.only_flow_read_errors", inp, f"escaped {type(end[1]).__name__}: {end[1]}")
+            continue
+        gs = _states(got)
+        if gs != states[:k]:
+            b.fail("truncation.exactly_the_complete_flows", inp, f"expected {k} flows, got {len(gs)} (equal prefix: {gs[:k] == states[:k]})")
+        if cut in bounds and end != "clean":
+            b.fail("truncation.clean_end_at_record_boundary", inp, end)
+        # inside a record both a clean end and a flow-read error are allowed by the statement
+
+
+def _load_vs_spec(b, tier):
+    """tnetstring.load against the reference framing on small byte strings (incl. 12/13-digit prefixes)"""
+    import io
+    from mitmproxy.io import tnetstring
+    from props import ioflows
+    alpha = b"012:,~x"
+    strings = list(ioflows.small_strings(alpha, 5 if tier == "quick" else 6))
+    for nd in (11, 12, 13, 14):
+        strings += [b"0" * nd + b":,", b"0" * (nd - 1) + b"1:a,", b"1" * nd]
+    for s in strings:
+        b.case(("load", s), nontrivial=len(s) > 0)
+        r = ioflows.spec_frame(s, 0)
+        fo = io.BytesIO(s)
+        try:
+            v = tnetstring.load(fo)
+            res = ("value", v)
+        except (ValueError, IndexError, TypeError) as e:
+            res = ("raised", e)
+        except Exception as e:  # noqa: BLE001
+            b.fail("load.raises_only_value_index_type_error", s.hex(), f"{type(e).__name__}: {e}")
+            continue
+        if r[0] == "eof":
+            if not (res[0] == "raised" and isinstance(res[1], ValueError) and str(res[1]) == EMPTY_MSG):
+                b.fail("load.eof_reports_empty_file", s.hex(), res)
+        elif r[0] == "bad":
+            if res[0] == "value":
+                b.fail("load.no_value_from_incomplete_record", s.hex(), res)
+            elif isinstance(res[1], ValueError) and str(res[1]) == EMPTY_MSG:
+                b.fail("load.empty_file_only_at_eof", s.hex(), res)
+        else:
+            if res[0] == "value" and fo.tell() != r[3]:
+                b.fail("load.consumes_exactly_one_record", s.hex(), f"pos {fo.tell()} expected {r[3]}")
+            if res[0] == "raised" and isinstance(res[1], IndexError):
+                b.fail("load.complete_record_is_not_reported_truncated", s.hex(), res)
+
+
+def _stream_save_sequences(b, tier, seed):
+    """real Save addon, real hooks; the stream's file object is the recording FileModel: after EVERY hook the durable
+    bytes are a clean sequence of complete records, writes are append-only [write(record), flush] pairs"""
+    import itertools
+    import random
+    from mitmproxy.addons import save
+    from mitmproxy.test import taddons
+    from props import ioflows
+    from pyvc.libx_io import FileModel
+    import os
+    import tempfile
+    HOOKS = {
+        "http": ("request", ["response", "error"]), "ws": ("request", ["websocket_end"]),
+        "tcp": ("tcp_start", ["tcp_end", "tcp_error"]), "udp": ("udp_start", ["udp_end", "udp_error"]),
+        "dns": ("dns_request", ["dns_response", "dns_error"]),
+    }
+    kinds = list(HOOKS)
+    rnd = random.Random(seed)
+    combos = [c for c in itertools.product(kinds, repeat=2)] + [tuple(rnd.choice(kinds) for _ in range(3)) for _ in range(6 if tier == "quick" else 40)]
+    for combo in combos:
+        flows = [ioflows.mk_flow(k) for k in combo]
+        # interleaving: all starts, then completions in a seeded order, shutdown after a seeded number of completions
+        order = list(range(len(flows)))
+        rnd.shuffle(order)
+        stop_after = rnd.randint(0, len(flows))
+        sa = save.Save()
+        d = tempfile.mkdtemp()
+        with taddons.context(sa) as tctx:
+            tctx.configure(sa, save_stream_file=os.path.join(d, "stream"))
+            real = sa.stream.fo
+            fm = FileModel()
+            sa.stream.fo = fm
+            snaps = []
+            expected_written = []
+
+            def snap(tag):
+                snaps.append((tag, bytes(fm.durable), bytes(fm.content)))
+
+            for f, k in zip(flows, combo):
+                getattr(sa, HOOKS[k][0])(f)
+                snap("start")
+            for n, i in enumerate(order):
+                if n == stop_after:
+                    break
+                f, k = flows[i], combo[i]
+                getattr(sa, rnd.choice(HOOKS[k][1]))(f)
+                expected_written.append(f)
+                snap("complete")
+            remaining = [flows[i] for i in order[stop_after:]]
+            sa.done()
+            snap("done")
+            real.close()
+        key = (combo, tuple(order), stop_after)
+        b.case(("stream-save", key), nontrivial=True)
+        inp = {"flows": list(combo), "completion_order": order, "shutdown_after": stop_after}
+        prev = b""
+        for tag, durable, content in snaps:
+            if durable != content:
+                b.fail("stream.flushed_after_every_hook", inp, f"after {tag}: {len(content) - len(durable)} unflushed bytes")
+            if not durable.startswith(prev):
+                b.fail("stream.append_only", inp, f"after {tag}")
+            prev = durable
+            recs, end = ioflows.spec_records(durable)
+            got, rend = ioflows.read_all(durable)
+            if end != "eof" or rend != "clean":
+                b.fail("stream.complete_records_at_every_hook_boundary", inp, f"after {tag}: framing {end}, reader {rend}")
+        ops = [o[0] for o in fm.ops]
+        nrec = len(expected_written) + len(remaining)
+        if ops != ["write", "flush"] * nrec + ["close"]:
+            b.fail("stream.trace_write_flush_per_flow", inp, ops)
+        # crash at any byte of the stream file: every truncation yields exactly the complete flows
+        final = bytes(fm.content)
+        bounds = [0]
+        for o in fm.ops:
+            if o[0] == "write":
+                bounds.append(bounds[-1] + len(o[1]))
+        step = 1 if tier == "thorough" else 37
+        _check_truncations(b, "stream:" + "+".join(combo), final, bounds, _states(expected_written + remaining_in_set_order(fm, remaining)), sorted(set(range(0, len(final) + 1, step)) | set(bounds) | {x - 1 for x in bounds[1:]} | {x + 1 for x in bounds[:-1]}))
+
+
+def remaining_in_set_order(fm, remaining):
+    """flows written by done() come out in set-iteration order: identify them by id from the records actually written"""
+    from props import ioflows
+    recs, _ = ioflows.read_all(bytes(fm.content))
+    ids = [f.id for f in recs][len(recs) - len(remaining):]
+    by_id = {f.id: f for f in remaining}
+    return [by_id[i] for i in ids if i in by_id]
+
+
+def bounded(tier, seed):
+    import random
+    from props import ioflows
+    b = Bounded()
+    b.rule = ("(1) files written by the real FlowWriter holding 1 flow of each of 10 type/shape kinds and mixed sequences of 3, read back by "
+              "the real FlowReader at EVERY truncation offset (BytesIO) and at sampled offsets through a real file (BufferedReader.peek path); "
+              "(2) tnetstring.load vs an independent reference framing on all strings over '012:,~x' up to length 5 (6 thorough) plus 11..14 digit prefixes; "
+              "(3) real Save addon driven through start/completion hooks of 2-3 flows of mixed types with shutdown at a seeded point, the stream's "
+              "file object replaced by the recording FileModel: durable bytes checked after every hook, then every (sampled in quick) truncation offset. "
+              "distinct = distinct (file, cut) / string / hook sequence; non-trivial = cut strictly inside a record, non-empty string")
+    b.bound = "<= 3 flows per file; truncation offsets: all (BytesIO), every 97th (real file); strings <= 5/6 bytes; hook sequences <= 3 flows"
+    rnd = random.Random(seed)
+    singles = ioflows.FLOW_KINDS
+    for k in singles:
+        fl = [ioflows.mk_flow(k)]
+        data, bounds = ioflows.encode_flows(fl)
+        _check_truncations(b, k, data, bounds, _states(fl), range(len(data) + 1))
+    mixes = [("http", "tcp", "dns"), ("ws", "udp_err", "http_err"), ("dns_err", "http_noresp", "tcp_err")]
+    if tier == "thorough":
+        mixes += [tuple(rnd.choice(singles) for _ in range(3)) for _ in range(10)]
+    for mix in mixes:
+        fl = [ioflows.mk_flow(k) for k in mix]
+        data, bounds = ioflows.encode_flows(fl)
+        _check_truncations(b, "+".join(mix), data, bounds, _states(fl), range(len(data) + 1))
+        _check_truncations(b, "+".join(mix), data, bounds, _states(fl), sorted(set(range(0, len(data) + 1, 97)) | set(bounds)), via="file")
+    _load_vs_spec(b, tier)
+    _stream_save_sequences(b, tier, seed)
+    return b
